@@ -16,6 +16,24 @@ claim("C16", "proof",
       "and exercised only by the correspondence run; correspondence is exhaustive for small fields, sampled for the 254/255/64-bit primes.",
       "Lean 4 proof (model = spec for all operands) + model/implementation correspondence", "5 (C16)")
 
+claim("C05", "proof",
+      "Lean 4 theorems (Props/C05.lean) prove for every character sequence that the model of parser_logic::preprocess equals a "
+      "reference lexer written from the property text, that block comments end at the first following '*/' and line comments at the "
+      "next newline whatever they contain, that an unclosed block comment is an error at its opener, and that the blanked text "
+      "contains no comments (idempotence). Tie: the real stripper (verif hook) vs model and reference on all strings up to length 6/8 "
+      "over a 7-letter alphabet plus random fragments; findings of generated programs compared plain / with comments of 16 shapes "
+      "spliced between tokens / with those comments blanked.",
+      "Lean kernel + standard axioms; correspondence exhaustive for short strings, sampled beyond; LALRPOP lexer downstream is exercised only.",
+      "Lean 4 proof (stripper refines reference lexer) + exhaustive short-string correspondence", "5 (C05)")
+claim("C04", "proof",
+      "Lean 4 theorems (Props/C04.lean) prove for all inputs that the stripped text is byte-aligned with the source (same length, "
+      "every character copied or replaced by as many blanks as it has bytes, prefix offsets equal), so positions computed by the "
+      "parser on the stripped text are valid byte positions and character boundaries of the original file. The remaining clauses "
+      "(labels of later stages are in range, on boundaries and cover the construct named in the message) are checked by a label audit "
+      "of every report on generated multi-byte/CRLF/commented files: that part is exploration, stated as partial in the evidence.",
+      "Lean kernel + standard axioms for the stripper part; LALRPOP @L/@R, lifting/desugaring metadata flow and codespan rendering are exercised, not proved.",
+      "Lean 4 proof (offset preservation) + label audit on the real pipeline", "5 (C04)")
+
 ALL = ["C%02d" % i for i in range(1, 21)]
 def main():
     checks = []
